@@ -30,7 +30,6 @@ import tempfile
 
 import torch
 
-import common as cm
 from symtorch import SymFloat, SymTensor, cur, from_ids, tracing
 from symtorch.axioms import ground_axioms
 from symtorch.explore import _to_float, prove
@@ -914,6 +913,40 @@ def find_flip(run, i, spec, rng, trials=600):
             continue
         if all(ev[c] for c in roots[:-1]) and not ev[roots[-1]]:
             return env
+    # phase 2: greedy walk that pushes the comparison of decision i towards its other side while the prefix keeps holding
+    a = roots[-1]
+    sign = 1.0
+    if d.ops[a] == 'not':
+        a, sign = d.args[a][0], -1.0
+    if d.ops[a] not in ('lt', 'le'):
+        return None
+    lhs, rhs = d.args[a]
+    env = dict(base)
+    best = None
+    for step in range(4000):
+        cand = dict(env)
+        n = rng.choice(names)
+        if re.match(r'^(u|xi)\d+$', n):
+            cand[n] = min(0.999999, max(0.0, cand[n] + rng.gauss(0, 0.2)))
+        elif '[' in n and (re.match(r'^y\d+$', n.split('[')[0]) or n.split('[')[0] in simplex):
+            cand[n] = cand[n] * math.exp(rng.gauss(0, 0.3))
+        else:
+            cand[n] = cand[n] * math.exp(rng.gauss(0, 0.25)) + rng.gauss(0, 0.02)
+        if not in_domain(spec, cand):
+            continue
+        try:
+            ev = d.evaluate(roots + [lhs, rhs], cand)
+        except (ValueError, OverflowError, ZeroDivisionError):
+            continue
+        if not all(ev[c] for c in roots[:-1]):
+            continue
+        if not ev[roots[-1]]:
+            return cand
+        m = sign * (ev[lhs] - ev[rhs])  # to be increased
+        if m != m:
+            continue
+        if best is None or m >= best:
+            best, env = m, cand
     return None
 
 
@@ -985,9 +1018,18 @@ def chain_task(task, tr):
                     continue
             # 2. otherwise the other branch must be infeasible
             neg = d.not_(run.pcs[i])
-            hy = run.dom + run.pcs[:i] + [neg]
-            hy = hy + ground_axioms(d, run.pcs[:i + 1], monotone=True)
-            st, r, _ = prove(d, hy, d.FALSE, timeout=20, get_values=list(run.V.values()), tr=tr, label='sibling infeasible')
+            st = None
+            # most infeasible branches are local facts (argument validation, the assert in tune()): try few hypotheses first
+            inner = {n for n in d.topo([run.pcs[i]]) if d.ops[n] in ('add', 'mul', 'div', 'uf', 'ite', 'ipow')}
+            related = [c for c in run.pcs[:i] if inner & set(d.topo([c]))]
+            stages = ([(related, 8)] if len(related) < i else []) + [(run.pcs[:i], 25)]
+            for prefix, to in stages:
+                hy = run.dom + prefix + [neg] + ground_axioms(d, prefix + [run.pcs[i]], monotone=True)
+                st, r, _ = prove(d, hy, d.FALSE, timeout=to, tr=tr, label='sibling infeasible', parallel=True)
+                if os.environ.get('C15_DEBUG') and r is not None and r.secs > 3:
+                    print('slow sibling', round(r.secs, 1), st, len(prefix), d.to_str(run.pcs[i], 4)[:200])
+                if st == 'proved':
+                    break
             if st == 'proved':
                 continue
             tr.inconc(f'{label}: no coverage certificate: the branch opposite to "{d.to_str(run.pcs[i], 5)}" '
@@ -1057,7 +1099,7 @@ def chain_task(task, tr):
                     continue
             else:
                 hy = full + list(g['extra'])
-            st, r, _ = prove(d, hy, node, timeout=30, get_values=varids, tr=tr, label=g['label'])
+            st, r, _ = prove(d, hy, node, timeout=30, get_values=varids, tr=tr, label=g['label'], parallel=True)
             if st != 'proved' and g.get('alt') is not None:
                 st2, _, _ = prove(d, hy, g['alt'], timeout=30, tr=tr, label=g['label'] + ' (or exactly zero)')
                 if st2 == 'proved':
@@ -1682,19 +1724,23 @@ def tasks_for(tier):
     if tier == 'quick':
         ts += [chain('uf1', [(sc, ['x'])], [(0, 0, 1), (0, 0, 0)]),
                chain('uf2', [(sl, ['x', 'y'])], [(0, 1, 0), (0, 0, 0)]),
-               chain('normal', [(sc, ['x'])], [(0, 0, 0)]),
-               chain('gamma', [(sc, ['r', 'x'])], [(0, 0, 0)]),
+               chain('normal', [(sc, ['x'])], [(0, 0, 0), (0, 0, 1)]),
+               chain('gamma', [(sc, ['r', 'x'])], [(0, 0, 0), (0, 1, 0)]),
                chain('gamma', [(sl, ['r', 'x'])], [(0, 1, 0)]),
                chain('gamma', [(sl, ['r'])], [(0, 0, 0)]),
                chain('cat', [(sc, ['p']), (sl, ['q'])], [(0, 0, 0), (1, 0, 0)]),
                chain('exptr', [(sl, ['z'])], [(0, 0, 1), (0, 0, 1)]),
-               chain('ufsimplex', [(di, ['x'])], [(0, 0, 0)]),
+               chain('ufsimplex', [(di, ['x'])], [(0, 0, 0)]),  # (two iterations: thorough tier, ~30 s)
                chain('dirichlet', [(di, ['x'])], [(0, 0, 0)]),
                chain('uf2', [(sc, ['x']), (sl, ['y'])], [(1, 0, 0)])]
         for k in (sc, sl, di, 'gmrf', 'hmc', 'adaptive', 'dual'):
             ts.append({'kind': 'tune', 'op': k, 'count': 0})
-        ts.append({'kind': 'tune', 'op': sc, 'count': 'sym'})
+        for k in (sc, sl, 'hmc'):
+            ts.append({'kind': 'tune', 'op': k, 'count': 'sym'})
+        ts.append({'kind': 'tune', 'op': 'adaptive', 'count': 3})
         ts.append({'kind': 'tune', 'op': 'dual', 'count': 3})
+        ts.append({'kind': 'tune', 'op': 'adaptive-rate', 'count': 9, 'accepted_so_far': 9, 'accepted': True})
+        ts.append({'kind': 'tune', 'op': 'adaptive-rate', 'count': 9, 'accepted_so_far': 2, 'accepted': False})
     else:
         for target, leaves in LEAVES.items():
             names = [n for n, _, _ in leaves]
